@@ -332,6 +332,68 @@ pub fn run(thorough: bool) -> Vec<Part> {
                 break;
             }
         }
+        // larger scales, stateless: multi-KiB bodies and long header lines arriving in many
+        // reads of assorted sizes, with empty reads in between
+        {
+            let mut cases: Vec<(String, Vec<u8>)> = vec![];
+            for n in [4096usize, 5000, 9000, 20000] {
+                let mut s = request("PUT", "/big", &[("X-a", "1")], &body_of(n));
+                s.extend_from_slice(&request("GET", "/after", &[], b""));
+                cases.push((format!("body {}", n), s));
+            }
+            for (lines, len) in [(1usize, 900usize), (3, 1000), (150, 40), (8, 1020)] {
+                let mut s = b"GET /h HTTP/1.1\r\n".to_vec();
+                for i in 0..lines {
+                    let mut l = format!("X-{:03}: ", i).into_bytes();
+                    while l.len() < len - 2 {
+                        l.push(b'v');
+                    }
+                    l.extend_from_slice(b"\r\n");
+                    s.extend_from_slice(&l);
+                }
+                s.extend_from_slice(b"\r\n");
+                s.extend_from_slice(&request("GET", "/after", &[], b""));
+                cases.push((format!("{} header lines of {} bytes", lines, len), s));
+            }
+            let t = crate::par::par_enum(
+                cases.len() as u64,
+                workers().min(cases.len()),
+                300,
+                |i, t| {
+                    let (name, s) = &cases[i as usize];
+                    let mut cfg = Cfg::base("C01", name, vec![], 51200);
+                    cfg.stream = Some(s.clone());
+                    let len = s.len();
+                    let (_, gobs, _, _) = crate::connx::run_segments(&cfg, &[len], false);
+                    for seg in [1usize, 7, 20, 37, 100, 500, 1000, 1023, 1024, 4096] {
+                        if seg == 1 && len > 12000 {
+                            continue;
+                        }
+                        for empties in [false, true] {
+                            let segs = vec![seg; len / seg + 1];
+                            let (v, obs, _, acts) = crate::connx::run_segments(&cfg, &segs, empties);
+                            t.evals += 1;
+                            t.nontrivial += 1;
+                            if let Some((sig, d)) = v {
+                                t.violate(&sig, format!("[{} in reads of {} bytes, empty reads {}] {}", name, seg, empties, d), crate::connx::schedule_replay(&cfg, &acts[..acts.len().min(400)]));
+                            } else if obs != gobs {
+                                t.violate("segmentation-dependent-delivery", format!("{} in reads of {} bytes (empty reads {}) delivers differently from greedy reads", name, seg, empties), crate::connx::schedule_replay(&cfg, &acts[..acts.len().min(400)]));
+                            }
+                        }
+                    }
+                    t.sample(json!({"large_scale_case": name, "bytes": len}));
+                },
+                |i| format!("large-scale case {}", i),
+            );
+            part.add("stateless_runs", t.evals);
+            part.add("traces_validated_against_impl", t.evals);
+            for v in &t.violations {
+                part.violations.push(v.clone());
+            }
+            for e in &t.machinery_errors {
+                part.machinery_errors.push(e.clone());
+            }
+        }
         parts.push(part);
     }
     parts
